@@ -15,5 +15,13 @@ RB_RULE = ("; engine B: the unmodified ninja executable with a real command that
            "downstream, with -k0 still starts independent work, the next build retries the command, the one after is a no-op")
 
 
+def fams(tier):
+    # the same clauses while ninja is a client of a jobserver pool (seam S6a): tokens decide what may start when
+    import templates_js
+    out = nxprops.families(tier)
+    out.append(("jobserver pool x other client (engine A)", templates_js.templates(tier), None, None))
+    return out
+
+
 def main(argv):
-    nxprops.run_check("C05", argv, ["C05"], RULE + RB_RULE, process_level=rbchecks.c05_process_level)
+    nxprops.run_check("C05", argv, ["C05"], RULE + RB_RULE, fam_fn=fams, process_level=rbchecks.c05_process_level)
